@@ -39,6 +39,20 @@ CHECKS = {
             "algorithm identity and stored-tuple provenance are concrete anchors.",
             "z3; <=5 read calls quick / <=7 thorough; hashlib/xxhash trusted; OS read contract",
             "DESIGN.md 3/C16"),
+    "C17": ("symx",
+            "symbolic execution with z3 of the real path validators and join sites on symbolic paths (SymPath shim)",
+            "Every path-valued metadata field and the writer sub-directory are symbolic paths (absolute flag + bounded part "
+            "sequence); at every file access of load/check/iterate/write the solver proves the location cannot leave the root "
+            "for any path accepted by the validators that ran.",
+            "z3; SymPath abstraction self-tested against pathlib; <=3 parts per path (<=2 in the 4-path reader tree) quick; no "
+            "symlinks; pydantic field validators discovered through __pydantic_decorators__",
+            "DESIGN.md 3/C17"),
+    "C20": ("symx",
+            "symbolic execution with z3 of the real version gate on unbounded symbolic version triples; finite forks for relocation",
+            "Refusal <=> strictly newer is proved for all (major, minor, patch) in N^3 on every path of the real comparison code; "
+            "relocation and description round trip are finite forks over stated cases on the real code (concrete).",
+            "z3; semver parse; pre-release tags outside; pydantic-core JSON not symbolically executed",
+            "DESIGN.md 3/C20"),
 }
 
 PENDING_REASON = "check not built yet in this round (work in progress; see DESIGN.md section 3 for the planned encoding)"
